@@ -19,14 +19,14 @@ type pgen struct {
 }
 
 var colNames = []string{"a", "b", "c", "k", "x", "n", "Kind", "name"}
-var tableNames = []string{"T", "U", "Events", "`my table`", "B"}
-var unknownFuncs = []string{"f", "strlen", "min", "max", "sum", "avg", "dcount", "g"}
+var tableNames = []string{"T", "U", "Events", "`my table`", "B", "`let`", "`by`", "Let"}
+var unknownFuncs = []string{"f", "strlen", "min", "max", "sum", "avg", "dcount", "g", "IsNull", "Not", "NOT", "StrCat", "ToLower", "Now", "Iff", "IsNotNull", "Count"}
 var builtinFuncs = []struct {
 	name  string
 	arity int
 }{{"not", 1}, {"isnull", 1}, {"isnotnull", 1}, {"tolower", 1}, {"toupper", 1}, {"countif", 1}, {"now", 0}, {"count", 0}, {"iff", 3}, {"iif", 3}, {"strcat", -1}}
 var binOps = []string{"or", "and", "==", "!=", "<", "<=", ">", ">=", "=~", "!~", "+", "-", "*", "/", "%"}
-var numberLits = []string{"0", "1", "2", "42", "007", "1.5", ".5", "0.25", "1e3", "1E-2", "2.5e+3", "0x1f", "0XFF", "0x0", "18446744073709551615", "00"}
+var numberLits = []string{"0", "1", "2", "42", "007", "1.5", ".5", "0.25", "1e3", "1E-2", "2.5e+3", "0x1f", "0XFF", "0x0", "18446744073709551615", "00", "1E3", "5E0", "1.0E3", "0xFFFFFFFFFFFFFFFF", "0x8000000000000000", "0x10000000000000000", "0x1ffffffffffffffff", "0X7fffffffffffffff"}
 var stringLits = []string{"'s'", "\"d\"", "'a b'", "''", "'it\\'s'", "\"q\\\"q\"", "'tab\\t'", "'nl\\n'", "'back\\\\slash'", "'semi;colon'", "'// no comment'", "'\xc3\xa9'", "\"it's\""}
 var hostileContents = []string{"'", "\"", "`", "\\", "\\\\", "x\\", "--", "/*", "*/", ";", "\x00", "\xff", "a'b", "a\"b", "' OR 1=1 --", "', (select 1) as y, '", "\n", "\t", "é", "a\\'b", "}", "{p}", "x' , (select 1) as y, '", "\\'", "'';", "a''b", "\"\"", " ", ""}
 
@@ -47,6 +47,11 @@ func (g *pgen) sep() string {
 		return "\n\n  "
 	case 5:
 		return " //\n"
+	case 6:
+		if g.r.chance(1, 3) {
+			return "\r\n"
+		}
+		return " "
 	default:
 		return " "
 	}
@@ -96,7 +101,15 @@ func (g *pgen) name() string {
 		return pqlQuotedIdent(pick(g.r, hostileContents) + pick(g.r, []string{"", "z", pick(g.r, hostileContents)}))
 	}
 	if g.r.chance(1, 8) {
-		return pick(g.r, []string{"`q c`", "`a``b`", "`by`", "`x.y`", "`$left`"})
+		return pick(g.r, []string{"`q c`", "`a``b`", "`by`", "`x.y`", "`$left`", "`let`", "`true`", "`null`", "`false`", "`and`", "`p1`", "`count`", "`a``b``c`", "``````", "`user id`"})
+	}
+	if g.r.chance(1, 16) {
+		// case variants of keywords and built-in names are plain identifiers
+		return pick(g.r, []string{"By", "IN", "Or", "AND", "In", "BY", "Let", "Null", "TRUE", "False", "Asc", "NULLS"})
+	}
+	if len(g.lets) > 0 && g.r.chance(1, 10) {
+		// a quoted name is a column even when a let or parameter of that name exists
+		return "`" + pick(g.r, g.lets) + "`"
 	}
 	if len(g.lets) > 0 && g.r.chance(1, 4) {
 		return pick(g.r, g.lets)
@@ -131,6 +144,9 @@ func (g *pgen) atom(join bool) string {
 		if g.r.chance(1, 6) {
 			return pick(g.r, []string{"$left", "$right"}) + "." + g.name()
 		}
+		if g.r.chance(1, 8) {
+			return g.name() + "." + pick(g.r, []string{"$left", "$right"})
+		}
 		return g.name() + g.osep() + "." + g.osep() + g.name()
 	case 6:
 		return g.number()
@@ -151,6 +167,10 @@ func (g *pgen) expr(depth int, join bool) string {
 	case 8:
 		return "(" + g.osep() + g.expr(depth-1, join) + g.osep() + ")"
 	case 9:
+		if g.r.chance(1, 4) {
+			k := 1 + g.r.intn(3)
+			return pick(g.r, []string{"-", "+"}) + strings.Repeat("(", k) + pick(g.r, []string{"-", "+", ""}) + g.expr(depth-1, join) + strings.Repeat(")", k)
+		}
 		return pick(g.r, []string{"-", "+", "-", "- "}) + g.expr(depth-1, join)
 	case 10:
 		return g.expr(depth-1, join) + g.osep() + "[" + g.osep() + g.expr(depth-1, join) + g.osep() + "]"
@@ -198,11 +218,15 @@ func (g *pgen) sortTerm(depth int) string {
 	case 1:
 		s += g.sep() + "desc"
 	}
-	switch g.r.intn(5) {
+	switch g.r.intn(6) {
 	case 0:
 		s += g.sep() + "nulls" + g.sep() + "first"
 	case 1:
 		s += g.sep() + "nulls" + g.sep() + "last"
+	case 2:
+		if g.r.chance(1, 6) {
+			s += g.sep() + "nulls" + g.sep() + pick(g.r, []string{"\"first\"", "`last`", "'last'", "First"})
+		}
 	}
 	return s
 }
@@ -212,7 +236,7 @@ func (g *pgen) rowCount() string {
 	case 0:
 		return g.expr(1, false)
 	case 1:
-		return pick(g.r, []string{"1.5", "'s'", "-1", "n", "0x10", "(3)"})
+		return pick(g.r, []string{"1.5", "'s'", "-1", "n", "0x10", "(3)", "1E3", "5E0", "1e3", "1.0E3", "2E+1", "0x1E"})
 	default:
 		return pick(g.r, []string{"1", "2", "3", "10", "0", "007", "0x1f"})
 	}
@@ -408,7 +432,12 @@ func mutate(r *rng, src string) string {
 	nm := 1 + r.intn(2)
 	for m := 0; m < nm && len(lex) > 0; m++ {
 		i := r.intn(len(lex))
-		switch r.intn(6) {
+		switch r.intn(7) {
+		case 6: // turn a word into a string or a quoted identifier of the same spelling (or back)
+			w := strings.Trim(lex[i], "`'\"")
+			if w != "" {
+				lex[i] = pick(r, []string{"`" + w + "`", "'" + w + "'", "\"" + w + "\"", w})
+			}
 		case 0: // delete
 			lex = append(lex[:i], lex[i+1:]...)
 		case 1: // insert
@@ -464,7 +493,17 @@ func init() {
 		for i := 0; i < n; i++ {
 			d := 1 + r.intn(200)
 			var s string
-			switch r.intn(8) {
+			switch r.intn(13) {
+			case 8:
+				s = "T" + strings.Repeat(" | join (T", d)
+			case 9:
+				s = "T | where " + strings.Repeat("f(", d)
+			case 10:
+				s = "T | where a" + strings.Repeat(" in (a", d)
+			case 11:
+				s = "T" + strings.Repeat(" | join kind=inner (T | where a[", d)
+			case 12:
+				s = "T | where " + strings.Repeat("a + -(", d)
 			case 0:
 				s = "T | where " + strings.Repeat("(", d) + "a" + strings.Repeat(")", d)
 			case 1:
@@ -489,9 +528,9 @@ func init() {
 		g := &pgen{r: r, noLayout: true}
 		for i := 0; i < n; i++ {
 			fields := []string{hx(g.program(1 + r.intn(3)))}
-			for _, k := range []string{"p1", "p2", "a", "true", "x", "Kind"} {
+			for _, k := range []string{"p1", "p2", "a", "true", "x", "Kind", "k", "user id"} {
 				if r.chance(1, 2) {
-					fields = append(fields, hx(k), hx(pick(r, []string{"{p:String}", "$1", "?", "42", "'lit'", "-5", "1 + 2", "(1 + 2)", "\"col\"", "NULL"})))
+					fields = append(fields, hx(k), hx(pick(r, []string{"{p:String}", "$1", "?", "42", "'lit'", "-5", "1 + 2", "(1 + 2)", "\"col\"", "NULL", ""})))
 				}
 			}
 			emit(fields...)
@@ -569,6 +608,11 @@ func init() {
 					st = pick(r, []string{"", " ", "// comment only", "\n", "// c\n"})
 				case 5:
 					st = "T | where a == x and b == n" // uses lets if defined, columns otherwise
+					if r.chance(1, 3) {
+						// things that only look like comments, lets or separators
+						st = pick(r, []string{"`let` | where x > 1", "T | where Source == \"http://example.com/feed\"", "T | where a == 'x;y' // c; d",
+							"T | where u == 'http://h/p'; U | count", "Let | count", "T | where s == \"a;//b\" | take 1", "`let` x = 1", "let `let` = 2"})
+					}
 				default:
 					st = g.tabular(1+r.intn(2), 1, r.intn(4))
 				}
@@ -601,7 +645,7 @@ func init() {
 				}
 				s = s[:p] + long + s[p:]
 			}
-			emit(hx(s), pick(r, []string{"stdin", "stdin", "file", "files", "ofile"}))
+			emit(hx(s), pick(r, []string{"stdin", "stdin", "file", "files", "ofile", "dash", "dashfile", "filedash"}))
 		}
 	}
 }
